@@ -325,6 +325,16 @@ static void l_work(void *arg)
     sim_progress();
 }
 
+static volatile int L_exit_calls;
+static void l_exit(void *arg)
+{
+    (void)arg;
+    L_exit_calls++;
+    sim_progress();
+    ABT_OK(ABT_xstream_exit());
+    sim_fail("stream:exit", "ABT_xstream_exit returned");
+}
+
 static void run_work_on(ABT_pool pool, int k, const char *when)
 {
     ABT_thread th[8];
@@ -357,6 +367,50 @@ static void run_c17_life(void)
     ABT_OK(ABT_xstream_get_rank(xs, &rank0));
     for (int c = 0; c < cycles; c++) {
         run_work_on(pool, k, c ? "after revive" : "on a fresh stream");
+        int how = (int)plan_n(6); /* 0-2: plain join; 3: ABT_xstream_cancel; 4: a ULT calls ABT_xstream_exit; 5: ABT_sched_exit */
+        if (how >= 3) {
+            /* the stream is told to terminate although work is queued: it terminates (join
+             * returns), what it did not run stays in the pool, and a revived stream runs it */
+            static const char *hn[] = { "cancel", "exit", "sched_exit" };
+            ABT_thread th[8], ex = ABT_THREAD_NULL;
+            sim_note("%s ", hn[how - 3]);
+            for (int i = 0; i < k; i++) {
+                L_done[i] = 0;
+                ABT_OK(ABT_thread_create(pool, l_work, (void *)(long)i, ABT_THREAD_ATTR_NULL, &th[i]));
+            }
+            if (how == 3)
+                ABT_OK(ABT_xstream_cancel(xs));
+            else if (how == 4)
+                ABT_OK(ABT_thread_create(pool, l_exit, NULL, ABT_THREAD_ATTR_NULL, &ex));
+            else {
+                ABT_sched ms;
+                ABT_OK(ABT_xstream_get_main_sched(xs, &ms));
+                ABT_OK(ABT_sched_exit(ms));
+            }
+            ABT_OK(ABT_xstream_join(xs));
+            ABT_xstream_state st2;
+            ABT_OK(ABT_xstream_get_state(xs, &st2));
+            SIM_CHECK(st2 == ABT_XSTREAM_STATE_TERMINATED, "stream:not-terminated", "state %d after %s + join (cycle %d)", (int)st2, hn[how - 3], c);
+            if (how == 4) {
+                SIM_CHECK(L_exit_calls == 1, "stream:exit", "the ULT that calls ABT_xstream_exit ran %d times before the stream terminated", L_exit_calls);
+                L_exit_calls = 0;
+            }
+            int left = 0;
+            for (int i = 0; i < k; i++) {
+                SIM_CHECK(L_done[i] <= 1, "stream:work-after-lifecycle-step", "unit %d ran %d times", i, L_done[i]);
+                left += L_done[i] == 0;
+            }
+            sim_count("c17.units_left_by_terminated_stream", (uint64_t)left);
+            sim_progress();
+            ABT_OK(ABT_xstream_revive(xs));
+            for (int i = 0; i < k; i++) {
+                ABT_OK(ABT_thread_free(&th[i]));
+                SIM_CHECK(L_done[i] == 1, "stream:work-after-lifecycle-step", "unit %d did not run exactly once across a %s and a revive (ran %d times)", i, hn[how - 3], L_done[i]);
+            }
+            if (ex != ABT_THREAD_NULL)
+                ABT_OK(ABT_thread_free(&ex));
+            sim_progress();
+        }
         ABT_OK(ABT_xstream_join(xs));
         ABT_xstream_state st;
         ABT_OK(ABT_xstream_get_state(xs, &st));
